@@ -194,7 +194,8 @@ def generate(seed, tier):
         Rng(seed, 'place'), world)
     s = {'kind': kind, 'placement': pl}
     if kind == 'dict':
-        s['order'] = srng.perm(len(world['cells']) + len(world['names']))
+        s['order'] = srng.perm(len(world['cells']) + len(world['names']) +
+                               len(world.get('vnames', [])))
     else:
         s.update(mode='loads', book_order=[0], sheet_orders={},
                  exec_seed=None, compact=srng.pick([1, 1, 1000]))
